@@ -9,8 +9,8 @@ use crate::reps::guard;
 use graaf::{
     AddArc, AddArcWeighted, AdjacencyList, AdjacencyListWeighted, AdjacencyMap, AdjacencyMatrix, ArcWeight, Arcs,
     ArcsWeighted, Biclique, Circuit, Complement, Complete, Converse, Cycle, EdgeList, Empty, ErdosRenyi,
-    FilterVertices, HasArc, Order, Path, RandomRecursiveTree, RandomTournament, RemoveArc, Size, Star, Union,
-    Vertices, Wheel,
+    FilterVertices, HasArc, InNeighbors, Indegree, Degree, Order, OutNeighbors, OutNeighborsWeighted, Outdegree, Path,
+    RandomRecursiveTree, RandomTournament, RemoveArc, Size, Star, Union, Vertices, Wheel,
 };
 use serde::{Deserialize, Serialize};
 use std::collections::{BTreeMap, BTreeSet};
@@ -203,6 +203,38 @@ impl DynG {
         }
     }
 
+    /// What the digraph shows *around* vertex `u` (which must be in V): out-neighbours with weights
+    /// (0 = unweighted), in-neighbours, outdegree, indegree, degree - further observers of the arc set.
+    pub fn around(&self, u: usize) -> Result<Around, String> {
+        guard(|| {
+            let out: Vec<(usize, i64)> = match self {
+                DynG::WI(g) => {
+                    let plain: Vec<usize> = g.out_neighbors(u).collect();
+                    let w: Vec<(usize, i64)> = g.out_neighbors_weighted(u).map(|(v, &w)| (v, w as i64)).collect();
+                    assert!(plain == w.iter().map(|&(v, _)| v).collect::<Vec<_>>(), "out_neighbors({u}) and out_neighbors_weighted({u}) disagree");
+                    w
+                }
+                DynG::WU(g) => {
+                    let plain: Vec<usize> = g.out_neighbors(u).collect();
+                    let w: Vec<(usize, i64)> = g.out_neighbors_weighted(u).map(|(v, &w)| (v, w as i64)).collect();
+                    assert!(plain == w.iter().map(|&(v, _)| v).collect::<Vec<_>>(), "out_neighbors({u}) and out_neighbors_weighted({u}) disagree");
+                    w
+                }
+                DynG::List(g) => g.out_neighbors(u).map(|v| (v, 0)).collect(),
+                DynG::Map(g) => g.out_neighbors(u).map(|v| (v, 0)).collect(),
+                DynG::Matrix(g) => g.out_neighbors(u).map(|v| (v, 0)).collect(),
+                DynG::Edge(g) => g.out_neighbors(u).map(|v| (v, 0)).collect(),
+            };
+            each!(self, g => Around {
+                out,
+                inn: g.in_neighbors(u).collect(),
+                outdegree: g.outdegree(u),
+                indegree: g.indegree(u),
+                degree: g.degree(u),
+            })
+        })
+    }
+
     pub fn hash64(&self) -> u64 {
         use std::hash::{Hash, Hasher};
         // fixed-key SipHash (DefaultHasher::new() uses constant keys)
@@ -224,6 +256,15 @@ impl DynG {
             ReprKind::WU => DynG::WU(build_weighted_usize(d)),
         }
     }
+}
+
+#[derive(Clone, Debug, PartialEq, Eq)]
+pub struct Around {
+    pub out: Vec<(usize, i64)>,
+    pub inn: Vec<usize>,
+    pub outdegree: usize,
+    pub indegree: usize,
+    pub degree: usize,
 }
 
 fn unweighted_obs<D: Order + Size + Vertices + Arcs>(g: &D) -> WObs {
